@@ -25,6 +25,11 @@ def check(repo: Repo, rep, tier):
     reeval_refresh(repo, rep)
     items_total(repo, rep)
     argument_kinds(repo, rep)
+    from .C04 import configure
+    from .C10 import map_total
+
+    map_total(repo, rep)
+    configure(repo, rep)
 
 
 def no_flags(v):
